@@ -46,7 +46,7 @@ if allowed then
 end
 
 redis.call("setex", KEYS[1], ttl, new_tokens)
-redis.call("setex", KEYS[2], ttl, now)
+redis.call("setex", KEYS[2], ttl, math.max(now, last_refreshed))
 
 return allowed`
 
